@@ -169,9 +169,92 @@ def _run_two_inits(ctx, case) -> F.Outcome:
     return out
 
 
+FAKE_EDITOR = """#!/bin/sh
+# stands in for vim: records what every file argument looks like when the editor opens
+for a in "$@"; do
+  if [ -f "$a" ]; then
+    cp "$a" "$ZORG_VERIF_SNAP/$(basename "$a")"
+    # like vim on :wq, leave the file ending in a newline
+    if [ -n "$(tail -c1 "$a")" ]; then echo >> "$a"; fi
+  fi
+done
+exit 0
+"""
+
+
+def _run_route(ctx, case) -> F.Outcome:
+    """The same contract through the other entry points: `zorg edit TARGET` (with a stand-in
+    editor that records the file as it is when the editor opens) and `zorg action open` on a
+    line holding [[TARGET]]."""
+    import os
+    import yaml
+
+    route, pmap, ti, exists = case
+    target = TARGETS[ti]
+    rel = _resolved(target)
+    zd = _setup(pmap, target, exists)
+    out = F.Outcome()
+    try:
+        H.freeze(DAY)
+        (zd / "opener.zo").write_text(f"# opener\n\n- 240102#P7 see [[{rel[:-3]}]] here\n")
+        r = Z.db_create(zd, DAY)
+        if not Z.cli_ok(r):
+            raise H.HarnessError("c16 route setup: db create failed " + r.err[-300:])
+        path = zd / rel
+        before = path.read_bytes() if path.exists() else None
+        dirs_before = sorted(str(p.relative_to(zd)) for p in zd.rglob("*") if p.is_dir())
+        snap = zd.parent / "snap"
+        snap.mkdir()
+        ed = zd.parent / "fake-editor.sh"
+        ed.write_text(FAKE_EDITOR)
+        ed.chmod(0o755)
+        cfg = zd.parent / "cfg.yml"
+        with open(cfg, "w") as f:
+            yaml.dump({"template_pattern_map": {PATTERNS[pi]: f"t{pi}.zot" for pi in pmap},
+                       "vim_exe": str(ed), "keep_alive_file": str(zd.parent / "keep-alive")}, f, sort_keys=False)
+        os.environ["ZORG_VERIF_SNAP"] = str(snap)
+        if route == "edit":
+            r = H.run_cli(zd, "edit", target, cfg=cfg, day=DAY)
+            at_open = (snap / Path(rel).name).read_bytes() if (snap / Path(rel).name).exists() else None
+        else:
+            r = H.run_cli(zd, "action", "open", "opener.zo", "3", cfg=cfg, day=DAY)
+            at_open = path.read_bytes() if path.exists() else None
+        dirs_after = sorted(str(p.relative_to(zd)) for p in zd.rglob("*") if p.is_dir())
+        should_exist, content = expected(pmap, target, exists, False, False, {})
+        problem = None
+        if content == "<unspecified>":
+            if exists and at_open != before:
+                problem = ("existing-file-touched", {"before": before, "when_opened": at_open})
+        elif not Z.cli_ok(r):
+            problem = ("raised", {"status": r.status, "exit": r.value, "stderr": r.err[-500:]})
+        elif exists and at_open != before:
+            problem = ("existing-file-touched", {"before": before, "when_opened": at_open})
+        elif not should_exist and (at_open is not None or (route == "open" and dirs_after != dirs_before)):
+            problem = ("something-created-without-a-matching-template", {"file": at_open, "dirs": dirs_after})
+        elif should_exist and at_open is None:
+            problem = ("nothing-written-although-a-pattern-matches", {})
+        elif content is not None and at_open is not None and at_open.decode() != content:
+            problem = ("content-differs-from-first-matching-template", {"expected": content, "observed": at_open.decode()})
+        if problem is None and route == "open" and Z.cli_ok(r) and f"EDIT {path}" not in r.out:
+            problem = ("page-link-not-opened", {"stdout": r.out[-300:]})
+        out.obs = H.digest([at_open, Z.cli_ok(r)])
+        if exists or content is not None:
+            out.nontrivial = H.digest(case)
+        if problem:
+            out.ok = False
+            out.sig = problem[0] + ":" + route
+            out.detail = {"via": route, "patterns": [PATTERNS[pi] for pi in pmap], "target": target, "exists": exists,
+                          "problem": problem[1]}
+    finally:
+        Z.drop(zd)
+    return out
+
+
 def _run_case(ctx, case) -> F.Outcome:
     if case[0] == "two":
         return _run_two_inits(ctx, case)
+    if case[0] in ("edit", "open"):
+        return _run_route(ctx, case)
     mode, pmap, ti, exists, overwrite, explicit, vi = case
     target, vm = TARGETS[ti], VARMAPS[vi]
     zd = _setup(pmap, target, exists)
@@ -282,10 +365,19 @@ def _cases(ctx):
                 for overwrite in (False, True):
                     explicit = (ti + len(pmap)) % 2 == 0
                     cases.append(["cli", pmap, ti, exists, overwrite, explicit, (ti + overwrite) % 2])
+    # through `zorg edit` and through opening a page link
+    for route in ("edit", "open"):
+        for pmap in [[]] + [[i] for i in range(len(PATTERNS))] + [[1, 0], [0, 1], [7, 3]]:
+            for ti in (0, 1, 2, 3, 5, 7):
+                for exists in (False, True):
+                    cases.append([route, pmap, ti, exists])
     return cases
 
 
 def _sample(case):
+    if case[0] in ("edit", "open"):
+        return {"via": "zorg edit TARGET (stand-in editor)" if case[0] == "edit" else "zorg action open on a line with [[TARGET]]",
+                "pattern_map_in_order": [PATTERNS[pi] for pi in case[1]], "target": TARGETS[case[2]], "target_exists": case[3]}
     if case[0] == "two":
         return {"two_initialisations_in_one_process": case[1], "templates": ["work/log.zot", "home/log.zot", "log.zot"]}
     mode, pmap, ti, exists, overwrite, explicit, vi = case
@@ -307,7 +399,9 @@ def run(ctx: F.Ctx):
             "template x 3 variable maps, through the real init_from_template; plus 10 maps through "
             "the `zorg template init` CLI with the map read from a YAML config in order; plus every order of "
             "two/three initialisations in one process from templates that share a base name in "
-            "different directories. Oracle: "
+            "different directories; plus 12 maps x 6 targets x {missing, existing} through `zorg edit TARGET` (a stand-in "
+            "editor records the file as it is when the editor opens) and through `zorg action open` on a line "
+            "holding [[TARGET]]. Oracle: "
             "existing and not forced => bytes and mtime unchanged; otherwise content == own jinja2 "
             "rendering of the first matching pattern's template body with captured groups over "
             "given variables (date-like strings as datetimes); no match and no explicit template => "
@@ -316,7 +410,7 @@ def run(ctx: F.Ctx):
         ),
         "bounds": {"cases": len(cases), "patterns": PATTERNS, "targets": TARGETS},
         "assumptions": ["the per-process template scratch directory of ZorgTemplateManager is re-created per worker (process-global state)",
-                        "entry points `edit`, `action open` and `note move` reach the same function and are exercised by C17/C10 cases"],
+                        "`note move` reaches the same function and is exercised by C10's template-made destinations"],
         "exhaustive": True,
     }
     return rep, meta
